@@ -770,23 +770,6 @@ def oracle(case, obs):
     return fails
 
 
-def _never_initialised_unexported(case, obs, failure):
-    """every implicated module is configured with export=False, is not a Pinata, was never handed out through an
-    attachment, and got startModule without earlyInit/initModule"""
-    decls = {d['id']: d for d in all_decls(case)}
-    mods = failure.get('modules') or []
-    if not mods or failure['class'] not in ('lifecycle-order', 'writes-not-done', 'bad-attachment-not-reported'):
-        return False
-    seen = {e[3] for e in obs['log'] if e[0] == 'see'}
-    for m in mods:
-        d = decls.get(m)
-        if d is None or d['export'] or d['kind'] == 'pinata' or m in seen:
-            return False
-        if [e[0] for e in obs['log'] if e[0] in ('early', 'init', 'start') and e[1] == m] != ['start']:
-            return False
-    return True
-
-
 def _pinata_created_through_attachment(case, obs, failure):
     """a scanned module is missing, and its Pinata was handed out through an attachment while the node was being
     created, i.e. before create_modules reached it in the declaration order"""
@@ -815,8 +798,7 @@ def _pinata_created_through_attachment(case, obs, failure):
     return False
 
 
-FINDING_CLASSIFIERS = {'never_initialised_unexported': _never_initialised_unexported,
-                       'pinata_created_through_attachment': _pinata_created_through_attachment}
+FINDING_CLASSIFIERS = {'pinata_created_through_attachment': _pinata_created_through_attachment}
 
 
 def nontrivial_key(case, obs):
@@ -952,7 +934,7 @@ def graph_cases(n, orders, rng=None, sample=None):
 
 def gen_cases(seed, tier):
     rng = random.Random(seed * 1000003 + 15)
-    n = {'quick': 3400, 'thorough': 40000, 'search': 40000}[tier]
+    n = {'quick': 3400, 'thorough': 24000, 'search': 24000}.get(tier, 3400)
     cases = [rand_case(rng) for _ in range(n)]
 
     def all_orders(k, mask):
